@@ -1,3 +1,3 @@
 From Coq Require Import ExtrOcamlBasic ZArith.
-From CppUVerif Require Import C06_Model.
-Extraction "c06_model.ml" C06_Model.run C06_Model.spec C06_Model.valid BinInt.Z.of_N.
+From CppUVerif Require Import C06_Model C06_Plug.
+Extraction "c06_model.ml" C06_Plug.prun C06_Plug.pspec C06_Plug.pvalid BinInt.Z.of_N.
